@@ -107,7 +107,9 @@ def task(arg):
         if n not in rm.summ or rm.lvar[n][0] != 'num' or rm.lvar[n][2] == 'bool':
             return None
         return tm.ite(rm.valued[n], rm.lvar[n][1], tm.R(0))
-    for (form, ln, expr, text, inst) in items:
+    for item in items:
+        form, ln, expr, text, inst = item[:5]
+        tol = Fraction(item[5]) if len(item) > 5 and item[5] else TOL
         fname = form if inst is None else '%s:%s' % (form, inst)
         L = '%s.%s' % (fname, ln)
         if L not in rm.summ or rm.lvar[L][0] != 'num':
@@ -158,19 +160,19 @@ def task(arg):
         except _Skip:
             continue
         Lv = rm.lvar[L][1]
-        bad = tm.or_(tm.lt(tm.R(TOL), tm.sub(Lv, E)), tm.lt(tm.R(TOL), tm.sub(E, Lv)))
+        bad = tm.or_(tm.lt(tm.R(tol), tm.sub(Lv, E)), tm.lt(tm.R(tol), tm.sub(E, Lv)))
         t1 = time.time()
         r, inputs, m = lf.query([rm.solved, rm.valued[L], bad] + lf.integral(lf.cone(L, 2)))
         dt = time.time() - t1
         nm = 'ty%d/%s = %s' % (year, L, json.dumps(expr, default=str)[:80])
         res['obl'].append((nm, r, dt))
         if len(res['samples']) < 2:
-            res['samples'].append({'obligation': nm, 'instruction_text': text[:140], 'query': 'exists inputs: solved and |%s - instruction(other lines)| > 0.0051' % L, 'result': r})
+            res['samples'].append({'obligation': nm, 'instruction_text': text[:140], 'query': 'exists inputs: solved and |%s - instruction(other lines)| > %s' % (L, float(tol)), 'result': r})
         if r == 'sat':
             ev = float(lf.mv(m, E))
             lv = float(lf.mv(m, Lv))
             res['viol'].append({'key': 'ty%d:%s' % (year, L), 'what': 'line %s is %s but its instruction "%s" gives %s on the other lines of the same solution' % (L, lv, text[:90], ev),
-                                'replay': {'kind': 'solve', 'year': year, 'forms': forms_req, 'inputs': inputs, 'expect': {'kind': 'instruction', 'line': L, 'form': fname, 'expr': json.loads(json.dumps(expr, default=str)), 'tol': str(TOL)}}})
+                                'replay': {'kind': 'solve', 'year': year, 'forms': forms_req, 'inputs': inputs, 'expect': {'kind': 'instruction', 'line': L, 'form': fname, 'expr': json.loads(json.dumps(expr, default=str)), 'tol': str(tol)}}})
         # reachability twin (thorough tier): the line can be valued and non-zero in a solved return
         if thorough:
             r0, _, _ = lf.query([rm.solved, rm.valued[L], tm.lt(tm.R(1), Lv)], want_inputs=False)
@@ -183,9 +185,9 @@ def task(arg):
 def run(tier):
     K, S = (1, 2) if tier == 'quick' else (2, 3)
     c = common.Check('C02', tier, 'SMT queries on the whole-return model composed from path-exhaustive symbolic summaries of the real line definitions: "solved and line differs from its official instruction applied to the other lines" must be unsat; instructions parsed from the bundled templates',
-                     ['Field.value of every line in the demand closure of Form 1040 (all years)', 'hv.instructions grammar over the XFA accessibility text of habutax/forms/ty*/f*.pdf'])
-    c.bounds = {'years': [2021, 2022, 2023], 'requested_forms': ['1040'], 'copies_per_input_form': K, 'copies_total': S, 'amounts': '|x| <= 1e8, whole cents', 'tolerance': '0.0051 (half a cent + eps)'}
-    c.outside = ['lines whose template text the grammar does not parse and that have no reviewed transcription (counted below)', 'text-valued lines, per-payer rows', 'forms without a machine-readable template text (worksheets, NC forms): not covered', 'products of two lines (Form 8606 lines 11/12)']
+                     ['Field.value of every line in the demand closure of Form 1040 and of Form 1040 + NC D-400 (all years)', 'hv.instructions grammar over the XFA accessibility text of habutax/forms/ty*/f*.pdf'])
+    c.bounds = {'years': [2021, 2022, 2023], 'requested_forms': [['1040'], ['1040', 'nc_d-400']], 'copies_per_input_form': K, 'copies_total': S, 'amounts': '|x| <= 1e8, whole cents', 'tolerance': '0.0051 (half a cent + eps)'}
+    c.outside = ['lines whose template text the grammar does not parse and that have no reviewed transcription (counted below)', 'text-valued lines, per-payer rows', 'forms without a machine-readable template text: worksheets and NC schedules are not covered; NC D-400 itself is covered by a cited transcription of 15 computed lines', 'products of two lines (Form 8606 lines 11/12)']
     c.assumptions = ['the accessibility text of the bundled template is the official instruction', 'oracle/instruction_overrides.json: reviewed transcriptions / exclusions', 'a blank (undemanded) operand line counts as 0']
     retmodel.preload([(y, K, {'S': S, 'ft': 'uf', 'cents': True}) for y in (2021, 2022, 2023)])
     os.environ['HV_PRELOADED'] = '1'
@@ -201,12 +203,32 @@ def run(tier):
         n = 5
         for i in range(n):
             tasks.append((y, K, S, items[i::n], ['1040'], tier == 'thorough'))
+    # forms without machine-readable template text: cited transcriptions (oracle/instruction_overrides.json)
+    for form, tr in overrides().get('transcriptions', {}).items():
+        for y in tr['years']:
+            items = []
+            for ln, alts in sorted(tr['lines'].items()):
+                for o in alts:
+                    if o.get('years') and y not in o['years']:
+                        continue
+                    expr = tuple(o['expr'])
+                    if expr[0] == 'add':
+                        expr = ('add', list(expr[1]))
+                    elif expr[0] == 'sub':
+                        expr = ('sub', expr[1], expr[2], bool(expr[3]))
+                    elif expr[0] == 'guard0':
+                        expr = ('guard0', expr[1], tuple(expr[2]))
+                    items.append((form, ln, expr, o['text'], None, o.get('tol')))
+            cov.setdefault(str(y), {})['transcribed_%s' % form] = len(items)
+            n = 3
+            for i in range(n):
+                tasks.append((y, K, S, items[i::n], tr['requested_forms'], tier == 'thorough'))
     c.extra['coverage_of_instruction_oracle'] = cov
     results = common.pmap(task, tasks)
     unc = []
     mp = {}
     for r in results:
-        mp[r['year']] = (r.get('model_lines', 0), r.get('model_paths', 0))
+        mp[r['year']] = max(mp.get(r['year'], (0, 0)), (r.get('model_lines', 0), r.get('model_paths', 0)))
         for nm, res, dt in r['obl']:
             c.obligation(nm, res, dt)
         for k_, n_ in r['twins'].items():
